@@ -156,7 +156,8 @@ pub fn apply_ref(op: &OpK, a: &[&T]) -> Result<T, RErr> {
         }
         OpK::Relu => a[0].map(|x| x.relu()),
         OpK::Sigmoid => {
-            dom_bounded(a[0], 20.0)?;
+            // saturating inputs are in the domain: the function is bounded
+            dom_bounded(a[0], 1000.0)?;
             a[0].map(|x| x.sigmoid())
         }
         OpK::Softmax => {
